@@ -82,6 +82,8 @@ func c09Gen(rt *rapid.T) wProg {
 		case x < 6:
 			// the root session leaves and attaches again on behalf of user 1, who then types in a session of his own
 			if p.Cfg.Root {
+				// (root's own marks are ahead of what he will report on behalf of user 1)
+				p.Ops = append(p.Ops, wOp{K: "sub", S: 0, T: "g0"}, wOp{K: "pub", S: 0, T: "g0"}, wOp{K: "pub", S: 0, T: "g0"}, wOp{K: "note", S: 0, T: "g0", A: "recv", N: 3}, wOp{K: "note", S: 0, T: "g0", A: "read", N: 3})
 				p.Ops = append(p.Ops, wOp{K: "leave", S: 0, T: "g0"}, wOp{K: "sub", S: 0, T: "g0", Obo: 2})
 				for k := range p.Sess {
 					if p.Sess[k] == 1 {
@@ -89,7 +91,8 @@ func c09Gen(rt *rapid.T) wProg {
 						break
 					}
 				}
-				p.Ops = append(p.Ops, wOp{K: "note", S: 0, T: "g0", A: "kp", Obo: 2})
+				p.Ops = append(p.Ops, wOp{K: "note", S: 0, T: "g0", A: "kp", Obo: 2}, wOp{K: "note", S: 0, T: "g0", A: gPick(rt, []string{"read", "recv"}, "obowhat"), N: gInt(rt, 1, 3, "oboseq"), Obo: 2},
+					wOp{K: "get", S: 0, T: "g0", A: "sub"})
 			}
 		case x < 8:
 			// P2P: a participant with marks unsubscribes, is invited back by the peer while the topic stays
@@ -161,6 +164,13 @@ func c09Gen(rt *rapid.T) wProg {
 			}
 			p.Ops = append(p.Ops, wOp{K: "leave", S: s, T: t, F: true},
 				wOp{K: "note", S: s, T: t, A: gPick(rt, []string{"recv", "recv", "read"}, "what"), N: gInt(rt, 1, 4, "seq")})
+		case x < 82:
+			// a busy connection has not yet got round to the notice that its topic is gone (deleted by the owner)
+			// when it sends notes: they reach a topic which has terminated, and notes are never answered
+			if k := gInt(rt, 1, len(p.Sess)-1, "busy"); true {
+				p.Ops = append(p.Ops, wOp{K: "sub", S: k, T: "g0"}, wOp{K: "lazy", S: k}, wOp{K: "del", S: 0, T: "g0", A: "topic", F: gPct(rt, 50)},
+					wOp{K: "note", S: k, T: "g0", A: gPick(rt, []string{"kp", "read", "recv"}, "lazywhat"), N: 1}, wOp{K: "tick", N: 50}, wOp{K: "lazy", S: k, F: true})
+			}
 		case x < 86:
 			p.Ops = append(p.Ops, wOp{K: "sub", S: s, T: topicFor(s)})
 		case x < 90:
@@ -463,6 +473,11 @@ func (o *c09Obs) After(w *wWorld, st *wStep) *kit.Viol {
 				if f.Ctrl != nil && sess == st.Sess && attached {
 					return kit.V("note-answered", "note %s was answered with {ctrl %d}", st.Req, f.Ctrl.Code)
 				}
+				// (a session which is not attached may be told 'attach first'; 'locked' is what a topic
+				// which has terminated says to requests, and it never says it to notes)
+				if f.Ctrl != nil && sess == st.Sess && f.Ctrl.Code == 503 && f.Ctrl.Text == "locked" {
+					return kit.V("note-answered:locked", "note %s reached a topic which had terminated and was answered with %s", st.Req, wJSON(f))
+				}
 				continue
 			}
 			if !valid {
@@ -499,6 +514,9 @@ func (o *c09Obs) After(w *wWorld, st *wStep) *kit.Viol {
 				// offline relay through the recipient's 'me'
 				if ruser < 0 || w.routeOfName(info.Src, ruser) != route {
 					return kit.V("info-wrong-topic", "{info} on 'me' at session %d names src=%q which is not how user %d addresses %s", sess, info.Src, ruser, route)
+				}
+				if what == "kp" && ruser == st.User {
+					return kit.V("kp-to-own-session", "typing note of user %d reached another session (%d) of the same user through 'me'", st.User, sess)
 				}
 				rm, rok := pre[subKey{route, w.users[ruser].uid}]
 				if !rok || rm.deleted || !(rm.want & rm.given).IsReader() || !(rm.want & rm.given).IsPresencer() {
